@@ -146,7 +146,15 @@ func c01Unit(c *engine.C, idx int, forceMain bool) (cls *jg.Class, relPath strin
 	case 3:
 		cls.Anns = []jg.Ann{{Name: "Table", Pairs: [][2]string{{"name", "\"t\""}, {"schema", "\"s\""}}}, {Name: "Entity"}}
 	}
-	switch c.Choose(3, pfx+"extends") {
+	switch c.Choose(4, pfx+"extends") {
+	case 3:
+		// a supertype written with its qualified name whose simple name is the declaring type's own name
+		if cls.Kind == "class" {
+			cls.Extends = "ext.lib." + name
+		} else {
+			cls.Implements = append(cls.Implements, "ext.lib."+name)
+		}
+		c.Tag("qualified-supertype-named-like-the-type")
 	case 1:
 		cls.Imports = append(cls.Imports, "ext.lib.Base")
 		if cls.Kind == "class" {
